@@ -1,0 +1,23 @@
+//go:build verif
+
+package service
+
+// Machine-checked contracts for package service (comment-only; see klog/contracts_verif.go).
+
+//@ type rounding invariant self == 5 || self == 10 || self == 12 || self == 15 || self == 20 || self == 30 || self == 60
+
+// nearest multiple of v, ties rounded up
+//@ spec roundTo(o int, v int) int = o - emod(o, v) + ite(2*emod(o, v) >= v, v, 0)
+
+//@ func NewRounding
+//@ let ok = r == 5 || r == 10 || r == 12 || r == 15 || r == 20 || r == 30 || r == 60
+//@ ensures (result1 == nil) == ok
+//@ ensures implies(ok, typeis(result0, rounding) && result0.ToInt() == r)
+//@ ensures implies(!ok, isnil(result0))
+//@ loop 1 invariant implies(rangeindex >= 0, r != 5) && implies(rangeindex >= 1, r != 10) && implies(rangeindex >= 2, r != 12) && implies(rangeindex >= 3, r != 15) && implies(rangeindex >= 4, r != 20) && implies(rangeindex >= 5, r != 30) && implies(rangeindex >= 6, r != 60)
+
+// RoundToNearest: nearest multiple of the rounding (ties up), written as a time; beyond 23:59> it is clamped to 23:59>.
+//@ func RoundToNearest
+//@ requires nonnil(t) && nonnil(r) && klog.off(t) >= 0
+//@ let n = roundTo(klog.off(t), r.ToInt())
+//@ ensures typeis(result, *klog.time) && klog.off(result) == ite(n < 2880, n, 2879)
